@@ -215,7 +215,7 @@ def probe_finding(run, binp, tdir):
     ok = (not o["err"]) and len(o["dec"]) == 1 and [x["n"] for x in o["dec"][0]["add"]] == [1, 2]
     run.cov["finding_probe_rangekey_table_without_custom_fields"] = (
         "round-trips" if ok else "does NOT round-trip on this tree (Encode omits the custom-tag terminator after tagNewFile5 when the table has "
-        "no custom field; Decode misparses: %s); excluded from the valid edits by assumption" % (o.get("msg") or "following table lost/garbled"))
+        "no custom field; Decode misparses: %s); this is the defect fixed in /repo; the generated inputs include the shape, so the run also reports it as a violation" % (o.get("msg") or "following table lost/garbled"))
 
 
 def run_c23(run):
@@ -331,8 +331,8 @@ def run_c23(run):
         "valid sequences (SeqPre): deleted tables exist at that level, added ones do not, a table is in one level, L1+ key-disjoint, L0 distinct "
         "largest seqnums, virtual tables' backings live, a physical table never next to its own virtualization, referenced blob files present, "
         "a base table deleted from a level is not re-added to it within one bulk (BulkVersionEdit returns an error), backings created/removed once",
-        "FINDING excluded by assumption: a table with range keys and no custom field (CreationTime 0, physical, no blob references, may hold "
-        "RANGEKEYSETs) does not survive Encode/Decode (see coverage.finding_probe_...); pebble always sets CreationTime",
+        "tables with range keys and no custom field (CreationTime 0, physical, no blob references) are valid inputs (they did not round-trip "
+        "before fix 'VersionEdit.Encode must terminate the custom-field list'; coverage.finding_probe_... re-probes that shape every run)",
         "decoded virtual tables whose backing was created by an earlier edit get it attached by the driver when edits are applied through "
         "separate BulkVersionEdits (a fresh BulkVersionEdit only knows backings it accumulated)",
         "BlobReference.BackingValueSize / EstimatedPhysicalSize, AllowedSeeks, stats are not compared; table bounds are compared by user key "
